@@ -21,13 +21,14 @@ Where the full statement is false of the code as it is, it is kept as a `def …
 Prop`, with the strongest `_partial` theorem (explicit side conditions) and a
 `_counterexample` from a concrete witness.  Helper lemmas live in
 CtyModel/Lemmas/{CoversBasic,CoversWeaken,OpsLogic,OpsCompare,OpsArith,OpsColl,
-OpsEquals,OpsIncludes,OpsAddSub,OpsDerived,OpsSets,OpsKnown}.lean.
+OpsEquals,OpsIncludes,OpsAddSub,OpsDerived,OpsSets,OpsMul,OpsKnown}.lean.
 -/
 import CtyModel.Lemmas.OpsEquals
 import CtyModel.Lemmas.OpsIncludes
 import CtyModel.Lemmas.OpsAddSub
 import CtyModel.Lemmas.OpsDerived
 import CtyModel.Lemmas.OpsSets
+import CtyModel.Lemmas.OpsMul
 namespace CtyModel
 namespace C01
 open Value
@@ -444,6 +445,28 @@ theorem sound_sub_partial (o₁ o₂ w₁ w₂ r : Value) (hk₁ : o₁.whollyKn
   by_cases ha : (o₁.isMarked || o₂.isMarked) = true <;> by_cases hb : (w₁.isMarked || w₂.isMarked) = true <;>
     simp_all [covers_withMarks_left, covers_withMarks_right]
 
+/-- Multiply: sound when both weakened operands have finite bounds on both sides
+and no corner product exceeds the 512 bits cty multiplies at (`CornerExactMul`,
+decidable).  Multiply keeps every bit the product needs, so unlike Add the bounds'
+own precision cannot spoil the result; unbounded sides (corners at ±∞) are not
+covered by this theorem. -/
+theorem sound_mul_partial (o₁ o₂ w₁ w₂ r : Value) (hk₁ : o₁.whollyKnown = true) (hk₂ : o₂.whollyKnown = true)
+    (hf₁ : o₁.wfc = true) (hf₂ : o₂.wfc = true) (hg₁ : w₁.wfc = true) (hg₂ : w₂.wfc = true)
+    (hc₁ : CoversX w₁ o₁ = true) (hc₂ : CoversX w₂ o₂ = true)
+    (hside : CornerExactMul w₁.unmark w₂.unmark o₁.unmark o₂.unmark = true)
+    (ho : Value.mul o₁ o₂ = .ok r) : ∃ r', Value.mul w₁ w₂ = .ok r' ∧ Covers r' r = true := by
+  unfold Value.mul at ho ⊢
+  rw [binMarks_eq] at ho ⊢
+  obtain ⟨r0, h0, rfl⟩ := res_map_ok ho
+  obtain ⟨r', h1, h2⟩ := mulU_sound_partial o₁.unmark o₂.unmark w₁.unmark w₂.unmark r0
+    (by rw [whollyKnown_unmark]; exact hk₁) (by rw [whollyKnown_unmark]; exact hk₂)
+    (flat_unmark (wfc_flat hf₁)) (flat_unmark (wfc_flat hf₂)) (flat_unmark (wfc_flat hg₁)) (flat_unmark (wfc_flat hg₂))
+    (by rw [coversX_unmark_left, coversX_unmark_right]; exact hc₁)
+    (by rw [coversX_unmark_left, coversX_unmark_right]; exact hc₂) hside h0
+  refine ⟨_, by rw [h1]; rfl, ?_⟩
+  by_cases ha : (o₁.isMarked || o₂.isMarked) = true <;> by_cases hb : (w₁.isMarked || w₂.isMarked) = true <;>
+    simp_all [covers_withMarks_left, covers_withMarks_right]
+
 /-! ## Non-vacuity -/
 example : Weaken ⟨.number, .n (Num.ofInt 5)⟩ ⟨.number, .unk (.num .f (some ⟨Num.ofInt 5, true⟩) none)⟩ :=
   .inside (.toUnk (by
@@ -457,6 +480,9 @@ example : (⟨.list .number, .seq [.n (Num.ofInt 2)]⟩ : Value).wfc = true := b
 /-- the side condition of `sound_add_partial` holds for ordinary bounds: unknown in [1, 5] plus 2 -/
 example : CornerExactAdd ⟨.number, .unk (.num .f (some ⟨Num.ofInt 1, true⟩) (some ⟨Num.ofInt 5, false⟩))⟩ (intVal 2)
     (intVal 3) (intVal 2) = true := by decide
+/-- … and of `sound_mul_partial`: unknown in [-3, 5] times unknown in [2, 4], standing for -1 · 3 -/
+example : CornerExactMul ⟨.number, .unk (.num .f (some ⟨Num.ofInt (-3), true⟩) (some ⟨Num.ofInt 5, true⟩))⟩
+    ⟨.number, .unk (.num .f (some ⟨Num.ofInt 2, true⟩) (some ⟨Num.ofInt 4, false⟩))⟩ (intVal (-1)) (intVal 3) = true := by decide
 
 end C01
 end CtyModel
